@@ -17,7 +17,7 @@ for d in sorted(glob.glob(os.path.join(V, "seeded", "*"))):
           ("broken tie / proof, no failing input found" if c.get("detected") else "**missed**")
     ok = m.get("confirmed_in_scratch_worktree", {}).get("applies_builds_and_existing_tests_pass")
     rows.append("| %s | %s | %s | %s | %s |" % (os.path.basename(d), m.get("property", ""), summ, "yes" if ok else "no", how))
-table = "### 0.6 Which check catches which seeded change\n\n| change | property | what it does | existing tests pass | `./check <id> quick` |\n|---|---|---|---|---|\n" + "\n".join(rows) + "\n"
+table = "### 0.7 Which check catches which seeded change\n\n| change | property | what it does | existing tests pass | `./check <id> quick` |\n|---|---|---|---|---|\n" + "\n".join(rows) + "\n"
 status = open(os.path.join(V, "tools", "_status_section.md")).read() + table
 dp = os.path.join(V, "DESIGN.md")
 s = open(dp).read()
